@@ -8,7 +8,7 @@ from abc import ABC
 from datetime import timedelta
 from http import HTTPStatus
 from ipaddress import ip_address
-from typing import Dict, Mapping, Optional, Set, Tuple, Type, Union
+from typing import Dict, List, Mapping, Optional, Set, Tuple, Type, Union
 from urllib.parse import urlparse
 
 import defusedxml.ElementTree as DET
@@ -76,7 +76,7 @@ class UpnpEventHandler:
         self._subscriptions: weakref.WeakValueDictionary[
             ServiceId, UpnpService
         ] = weakref.WeakValueDictionary()
-        self._backlog: Dict[ServiceId, Tuple[Mapping, str]] = {}
+        self._backlog: Dict[ServiceId, List[Tuple[Mapping, str]]] = {}
 
     @property
     def callback_url(self) -> str:
@@ -139,9 +139,11 @@ class UpnpEventHandler:
         # Some devices don't behave nicely and send events before the SUBSCRIBE call is done.
         if not service:
             _LOGGER.debug("Storing NOTIFY in backlog for SID: %s", sid)
-            self._backlog[sid] = (
-                headers,
-                body,
+            self._backlog.setdefault(sid, []).append(
+                (
+                    headers,
+                    body,
+                )
             )
 
             return HTTPStatus.OK
@@ -222,8 +224,8 @@ class UpnpEventHandler:
         # replay any backlog we have for this service
         if sid in self._backlog:
             _LOGGER.debug("Re-playing backlogged NOTIFY for SID: %s", sid)
-            item = self._backlog[sid]
-            await self.handle_notify(item[0], item[1])
+            for item in self._backlog[sid]:
+                await self.handle_notify(item[0], item[1])
             del self._backlog[sid]
 
         return sid, timeout
